@@ -363,8 +363,10 @@ def run_vanish(r, iface):
     legal prefix - in particular no second response start from the not-found application."""
     m = mod_for(iface)
     for kind in ("Files", "Pages", "Files+404", "Pages+404", "FileResponse"):
-        for rng in (None, "bytes=1-4", "bytes=0-1,5-6"):
+        for rng, how in [(x, "removed") for x in (None, "bytes=1-4", "bytes=0-1,5-6")] + [(x, n_) for x in (None, "bytes=1-4", "bytes=2-9", "bytes=0-1,5-9") for n_ in (0, 3, 6)]:
             for k in range(0, 6):
+                if how != "removed" and k == 0 and kind != "FileResponse":
+                    continue  # (truncated before the request: simply a shorter file)
                 d = tempfile.mkdtemp(prefix="c05-", dir=os.environ.get("VERIF_SCRATCH", "/tmp"))
                 try:
                     p = os.path.join(d, "x.html")
@@ -379,7 +381,11 @@ def run_vanish(r, iface):
                         if not before:
                             seen[0] += 1
                         if seen[0] == k and os.path.exists(p):
-                            os.unlink(p)
+                            if how == "removed":
+                                os.unlink(p)
+                            else:
+                                with open(p, "r+b") as f_:
+                                    f_.truncate(how)
                     if iface == "wsgi":
                         res = run_wsgi_watched(app, SV.to_environ(req), on_event, k)
                     else:
@@ -388,11 +394,12 @@ def run_vanish(r, iface):
                     r.count("traces")
                     r.count("distinct_nontrivial")
                     probs = protocol_problems(iface, res, res.exc is None)
-                    w = {"iface": iface, "recipe": f"vanish {kind}", "fault": f"file removed after event {k}", "range": rng, "k": k}
+                    what = "removed" if how == "removed" else f"truncated to {how} bytes"
+                    w = {"iface": iface, "recipe": f"vanish {kind}", "fault": f"file {what} after event {k}", "range": rng, "k": k}
                     if probs:
-                        r.violation(f"vanish:{iface}:{probs[0].split(' ')[0]}", w, f"{iface} {kind}, Range={rng!r}, file removed after event {k}: {probs[0]}")
+                        r.violation(f"vanish:{iface}:{probs[0].split(' ')[0]}", w, f"{iface} {kind}, Range={rng!r}, file {what} after event {k}: {probs[0]}")
                     elif res.exc is not None and not isinstance(res.exc, (OSError,)) and type(res.exc).__name__ != "HTTPException":
-                        r.violation(f"vanish:{iface}:exception", w, f"{iface} {kind}, Range={rng!r}, file removed after event {k}: raised {res.exc!r:.120}")
+                        r.violation(f"vanish:{iface}:exception", w, f"{iface} {kind}, Range={rng!r}, file {what} after event {k}: raised {res.exc!r:.120}")
                 finally:
                     shutil.rmtree(d, ignore_errors=True)
     r.sample({"iface": iface, "recipe": "file removed after the k-th event", "k": "0..5"})
@@ -476,6 +483,18 @@ def run_shard(desc, tier):
                     continue
                 res = call(iface, resp, method)
                 ok = judge(r, iface, f"{name} {method}", res, None)
+                if method == "GET":
+                    # the application looks at the headers first (logging, a test helper), in either representation
+                    for peek in (False, True):
+                        resp3 = make(m)
+                        try:
+                            resp3.list_headers(as_bytes=peek)
+                            resp3.list_headers(as_bytes=not peek)
+                            resp3.list_headers(as_bytes=peek)
+                        except Exception as e:  # noqa
+                            r.violation(f"list_headers:{type(e).__name__}", {"iface": iface, "recipe": name, "fault": None}, f"{iface} {name}: list_headers() raised {e!r:.100}")
+                            continue
+                        judge(r, iface, f"{name} {method} after list_headers(as_bytes={peek}) was called", call(iface, resp3, method), None)
                 if ok and method == "GET":
                     total = n_sends(res)
                     for f in range(0, total + 1):
@@ -491,6 +510,8 @@ def run_shard(desc, tier):
         iface = desc[1]
         for kind, n, raise_at in stream_recipes(3 if tier == "quick" else 6):
             name = f"{kind} n={n} raise_at={raise_at}"
+            if raise_at is None:
+                judge(r, iface, name + " HEAD", call(iface, build_stream(iface, kind, n, raise_at), "HEAD"), None)
             res = call(iface, build_stream(iface, kind, n, raise_at))
             ok = judge(r, iface, name, res, None if raise_at is None else f"producer raises at step {raise_at}", expect_exc=Boom)
             if raise_at is not None and not isinstance(res.exc, Boom):
